@@ -43,6 +43,10 @@ def restart_tasks(tier, matrix):
 
 
 
+def db_task(ob, params, want):
+    return dict(ob=ob, params=params, want=want, witness_rate=1.0, max_witness=6, jobs=4)
+
+
 def usage_ops_late(tier, mode, want):
     return usage_ops(tier, mode, want)
 
@@ -76,7 +80,8 @@ PROPS["C07"] = P(
     "step(release) clears only (nameplate, side) and deletes the nameplate with its last claim, always "
     "`released`; claim by a side that released => `reclaimed`, store unchanged; list = names of the app; a "
     "claim flag of another (nameplate, side) changes in no operation except by deletion with its own mailbox",
-    lambda tier: all_ops(tier, ["C07.", "INV.np_has_claim", "INV.fk_nameplate_side"]))
+    lambda tier: all_ops(tier, ["C07.", "INV.np_has_claim", "INV.fk_nameplate_side"]) +
+                 restart_tasks(tier, [(["claim_list_open_close", "claim_list_release"], ["list", "allocate", "claim"])]))
 
 PROPS["C08"] = P(
     "step(close) from every INV pre-state (handle present or re-sent on a fresh connection, nameplate "
@@ -89,13 +94,15 @@ PROPS["C09"] = P(
     "at every transport send in every step of every operation both stores have no open transaction, and "
     "every operation ends clean on every path (with and without usage store)",
     lambda tier: all_ops(tier, ["C09."]) +
-                 (all_ops(tier, ["C09."], usage="plain") if tier == "thorough" else usage_ops_late(tier, "plain", ["C09."])))
+                 (all_ops(tier, ["C09."], usage="plain") if tier == "thorough" else usage_ops_late(tier, "plain", ["C09."])) +
+                 [db_task("db.create_crash", dict(name=n, entry="upgrade"), ["C09.pragmas"]) for n in ("channel", "usage")])
 
 PROPS["C17"] = P(
     "arbitrary JSON object (symbolic key presence, symbolic string values, two junk keys) on a connection in "
     "an arbitrary protocol state: welcome/ack/error discipline against a reference table written from "
     "docs/server-protocol.md, store unchanged on protocol errors, no exception escapes any handler",
-    lambda tier: [dict(ob="step.any", params=dict(tier=tier), want=["C17.", "C09."])] + all_ops(tier, ["C17."]))
+    lambda tier: [dict(ob="step.any", params=dict(tier=tier), want=["C17.", "C09."]),
+                  dict(ob="step.welcome", params=dict(tier=tier), want=["C17."])] + all_ops(tier, ["C17."]))
 
 
 PROPS["C12"] = P(
@@ -170,6 +177,7 @@ RESTART_ALL = lambda tier: [
     (["alloc_sweep_claim"], ["claim", "allocate"] if tier == "thorough" else ["claim"]),
     (["claim_list_open_close", "claim_list_release"], ["list", "allocate", "claim", "open"]),
     (["list_other_app"], ["list", "allocate", "claim"]),
+    (["alloc_claim"], ["allocate", "claim"]),
 ]
 
 PROPS["C11"] = P(
@@ -216,10 +224,6 @@ DB_ASSUME = [
 ]
 
 
-def db_task(ob, params, want):
-    return dict(ob=ob, params=params, want=want, witness_rate=1.0, max_witness=6, jobs=4)
-
-
 PROPS["C19"] = P(
     "the real _get_db / create_*_db / create_or_upgrade_*_db / open_existing_db on the file-system model: a "
     "crash at every event of first-time creation leaves nothing (or a complete database) at the path and the "
@@ -251,7 +255,9 @@ PROPS["C04"] = P(
     "_did_allocate blocks a second allocate",
     lambda tier: [dict(ob="kernel.allocator", fn=alloc_kernel.run, params={}, want=[]),
                   dict(ob="step.allocate", params=dict(tier=tier), want=["C04.", "INV.uniq_nameplate_name"]),
-                  dict(ob="step.any", params=dict(tier=tier, types=["allocate"]), want=["C17.proto_error", "C17.no_spurious_error"])],
+                  dict(ob="step.any", params=dict(tier=tier, types=["allocate"]), want=["C17.proto_error", "C17.no_spurious_error"]),
+                  dict(ob="prod.restart", params=dict(tier=tier, ops=["allocate"], histories=["alloc_claim", "alloc", "claim_list_release"]),
+                       want=["C04.", "C11."])],
     bounds=lambda tier: dict(kernel="all 999 short ids and 1000 random draws, unbounded in-use set (uninterpreted predicate)",
                              step=STEP_BOUNDS(tier)),
     assumptions=STEP_ASSUME + ["'%d' % i is injective and canonical (Dec(e) equality is integer equality); "
